@@ -697,7 +697,9 @@ def executeDecimalMethod (l r : Option Node) (num : F64) : Except Err F64 :=
       | .error e => .error e
       | .ok scale =>
         let ratio := F64.pow10 scale
-        let rounded := F64.div (F64.round (F64.mul num ratio)) ratio
+        let scaled := F64.mul num ratio
+        -- when num*ratio overflows (ratio finite), num has no digits beyond the scale: unchanged
+        let rounded := if scaled.isInf && !ratio.isInf then num else F64.div (F64.round scaled) ratio
         let count : Int := countNonZeroDigits (Decimal.formatF rounded)
         if count > 0 && count > precision - scale then .error .verbose else .ok rounded
 
